@@ -52,7 +52,7 @@ static void judge(const uint8_t buf[32], const char* cls) {
 }
 
 /* ---------------------------------------------------------------- round trip */
-static uint64_t n_round(void) { return pv_scaled(60000, 1500000); }
+static uint64_t n_round(void) { return pv_scaled(60000, 15000000); }
 static void run_round(uint64_t idx, pv_rng* rng) {
     set_mask((unsigned)(idx % 8));
     pv_mseed m; pv_gen_mseed(rng, g_mask, true, &m);
@@ -88,7 +88,7 @@ static void run_round(uint64_t idx, pv_rng* rng) {
 #define SW_V1_FIXED 1
 #define SW_FOOTER 2
 #define SW_BYTES 3
-static uint64_t n_fields(void) { return pv_scaled(3, 24) * (3 * 256 + 11); }
+static uint64_t n_fields(void) { return pv_scaled(3, 200) * (3 * 256 + 11); }
 static void fix_check(uint8_t b[32]) {     /* recompute the check value for whatever the buffer now says (features/birthday/secret) */
     pv_mseed m; memset(&m, 0, sizeof m);
     unsigned v1 = b[8] | ((unsigned)b[9] << 8);
@@ -126,7 +126,7 @@ static void run_fields(uint64_t idx, pv_rng* rng) {
 }
 
 /* ---------------------------------------------------------------- mutations and random buffers */
-static uint64_t n_mutate(void) { return pv_scaled(150000, 4000000); }
+static uint64_t n_mutate(void) { return pv_scaled(150000, 40000000); }
 static void run_mutate(uint64_t idx, pv_rng* rng) {
     set_mask((unsigned)(idx % 8));
     uint8_t b[32];
